@@ -95,13 +95,16 @@ def _modules(rep, sess, tier, seed):
     for name, (net, fwd) in module_cases(seed).items():
         gdef, st = nnx.split(net)
 
-        def via_pickle(state, gdef=gdef, fwd=fwd):
+        def via_pickle(state, gdef=gdef, fwd=fwd, device=None):
             store = Store()
             m = nnx.merge(gdef, state)
             with overlay(serialize, open=lambda fn, mode: FakeFile(fn), pickle=store):
-                serialize.save_pickle("net.pkl", m)
-                m2 = serialize.load_pickle("net.pkl", nnx.graphdef(m))
+                serialize.save_pickle("net.pkl", m, move_to_device=device)
+                m2 = serialize.load_pickle("net.pkl", nnx.graphdef(m), device)
             return nnx.state(m2), fwd(m2), fwd(m)
+
+        def via_pickle_cpu(state, gdef=gdef, fwd=fwd):
+            return via_pickle(state, gdef, fwd, "cpu")
 
         def via_orbax_logger(state, gdef=gdef, fwd=fwd):
             m = nnx.merge(gdef, state)
@@ -135,8 +138,19 @@ def _modules(rep, sess, tier, seed):
             g2, _ = nnx.split(m)
             m2 = nnx.merge(g2, rec.saved[path])
             return nnx.state(m2), fwd(m2), fwd(m)
-        for label, fn in (("save_pickle/load_pickle", via_pickle), ("OrbaxCheckpointer.save_model+restore_checkpoint", via_orbax_logger), ("StandardLogger._save_checkpoint", via_standard_logger)):
-            e = E1(rep.r, sess, fn, (st,), f"{label}[{name}]")
+        for label, fn in (("save_pickle/load_pickle", via_pickle), ("save_pickle/load_pickle(move_to_device=cpu)", via_pickle_cpu), ("OrbaxCheckpointer.save_model+restore_checkpoint", via_orbax_logger), ("StandardLogger._save_checkpoint", via_standard_logger)):
+            try:
+                e = E1(rep.r, sess, fn, (st,), f"{label}[{name}]")
+            except V.Unsupported:
+                raise
+            except Exception as ex:  # the real save/load pair rejects a module it was given: not a faithful reload
+                try:
+                    fn(st)
+                    rep.r.inconclusive_(f"{label}[{name}]", f"tracing raised {type(ex).__name__} but the eager call succeeded")
+                except Exception as ex2:
+                    rep.r.replayed += 1
+                    rep.r.violation(f"{label}:every-variable-leaf-restored", f"{name}: save followed by load raises {type(ex2).__name__}: {str(ex2)[:160]}", {"module": name})
+                continue
             la, lb = jax.tree_util.tree_leaves(e.ins[0]), jax.tree_util.tree_leaves(e.outs[0])
             if len(la) != len(lb):
                 rep.r.violation(f"{label}:complete-state", f"{name}: {len(la)} state leaves saved, {len(lb)} restored", {"module": name})
@@ -222,6 +236,16 @@ def buffer_program(cls_name, n_ops):
             clone = roundtrip(ctx, buf)
             ctx.check(clone is not buf, "reload-gives-a-new-object")
             _dict_equal(ctx, buf.__dict__, clone.__dict__, "saved-buffer-reloads-to-identical-state")
+            if last_sampled and hasattr(buf, "update_priority") and bool(sym_bool("update_right_after_reload")):
+                # a save taken between sample_batch and update_priority: the pending batch must survive the reload
+                p0 = sym_real("p_reload", 0, None, lo_open=True)
+                buf.update_priority(p0)
+                try:
+                    clone.update_priority(p0)
+                except Exception as ex:
+                    ctx.log.append(f"update_priority on the reloaded buffer raised {type(ex).__name__}: {ex}")
+                    ctx.check(False, "same-evolution-under-a-priority-update")
+                _dict_equal(ctx, buf.__dict__, clone.__dict__, "same-evolution-under-a-priority-update")
             # identical subsequent behaviour: one more addition, one sample with the same generator draws, one priority update
             add(buf, 100)
             _readd(clone, buf, sub)
